@@ -32,6 +32,7 @@ type Run struct {
 	Tier    string
 	Seed    int64
 	Shard   int
+	FileTag int // number used in the names of the result files (differs from Shard for the race-binary pass)
 	NShards int
 	Only    string // run only this case key (replay)
 	Resume  string // skip all cases up to and including this key (continuation after a process-fatal case)
@@ -80,6 +81,7 @@ func Start(t testing.TB, prop string) *Run {
 		start:      time.Now(),
 		exhaustive: map[string]bool{},
 	}
+	r.FileTag = int(envInt("VERIF_FILE_TAG", int64(r.Shard)))
 	if r.Tier == "" {
 		r.Tier = "quick"
 	}
@@ -90,7 +92,7 @@ func Start(t testing.TB, prop string) *Run {
 		r.OutDir = t.TempDir()
 	}
 	_ = os.MkdirAll(r.OutDir, 0o755)
-	if f, err := os.OpenFile(filepath.Join(r.OutDir, fmt.Sprintf("journal-%d.txt", r.Shard)),
+	if f, err := os.OpenFile(filepath.Join(r.OutDir, fmt.Sprintf("journal-%d.txt", r.FileTag)),
 		os.O_CREATE|os.O_WRONLY|os.O_APPEND, 0o644); err == nil {
 		r.journal = f
 		r.jw = bufio.NewWriter(f)
@@ -123,6 +125,9 @@ func (r *Run) Journal(line string) {
 // Group runs cases 0..n-1 of a named group; this shard executes those with i % NShards == Shard.
 // Every case gets a PRNG that depends only on (seed, group, i).
 func (r *Run) Group(name string, n int, f func(i int, rng *Rand)) {
+	if !groupSelected(name) {
+		return
+	}
 	for i := 0; i < n; i++ {
 		key := name + "/" + strconv.Itoa(i)
 		if r.Only != "" {
@@ -148,6 +153,25 @@ func (r *Run) Group(name string, n int, f func(i int, rng *Rand)) {
 	r.mu.Lock()
 	r.curCase = ""
 	r.mu.Unlock()
+}
+
+// groupSelected applies VERIF_ONLY_GROUPS / VERIF_SKIP_GROUPS (comma separated name prefixes).
+func groupSelected(name string) bool {
+	match := func(list string) bool {
+		for _, p := range strings.Split(list, ",") {
+			if p != "" && strings.HasPrefix(name, p) {
+				return true
+			}
+		}
+		return false
+	}
+	if only := os.Getenv("VERIF_ONLY_GROUPS"); only != "" && !match(only) {
+		return false
+	}
+	if skip := os.Getenv("VERIF_SKIP_GROUPS"); skip != "" && match(skip) {
+		return false
+	}
+	return true
 }
 
 // Exhaustive marks a named sub-space as completely enumerated by this run (all shards together).
@@ -224,7 +248,7 @@ func (r *Run) Violation(sig, msg string, witness interface{}) {
 		dir = filepath.Join(r.OutDir, "replays")
 	}
 	_ = os.MkdirAll(dir, 0o755)
-	name := fmt.Sprintf("%s-%d-%d-%d.json", sanitize(sig), r.Seed, r.Shard, r.vioSeen[sig])
+	name := fmt.Sprintf("%s-%d-%d-%d.json", sanitize(sig), r.Seed, r.FileTag, r.vioSeen[sig])
 	path := filepath.Join(dir, name)
 	rec := map[string]interface{}{
 		"property": r.Prop, "signature": sig, "message": msg, "case": r.curCase,
@@ -273,7 +297,7 @@ func (r *Run) Finish() {
 	for i, k := range hs {
 		binary.LittleEndian.PutUint64(hb[8*i:], k)
 	}
-	_ = os.WriteFile(filepath.Join(r.OutDir, fmt.Sprintf("shard-%d.hashes", r.Shard)), hb, 0o644)
+	_ = os.WriteFile(filepath.Join(r.OutDir, fmt.Sprintf("shard-%d.hashes", r.FileTag)), hb, 0o644)
 	ex := []string{}
 	for k := range r.exhaustive {
 		ex = append(ex, k)
@@ -294,5 +318,5 @@ func (r *Run) Finish() {
 		b, _ = json.Marshal(map[string]interface{}{"property": r.Prop, "shard": r.Shard, "marshal_error": err.Error(),
 			"evaluations": r.evals, "violations": r.violations})
 	}
-	_ = os.WriteFile(filepath.Join(r.OutDir, fmt.Sprintf("shard-%d.json", r.Shard)), b, 0o644)
+	_ = os.WriteFile(filepath.Join(r.OutDir, fmt.Sprintf("shard-%d.json", r.FileTag)), b, 0o644)
 }
